@@ -72,11 +72,16 @@ func (e *Engine) addStructFields(T types.Type, out map[string]bool) {
 			// only ghost-after hooks do, and those are accounted for separately
 			continue
 		}
-		out[e.hint("F_"+TypeKey(T)+"_"+sanitize(f.name), ArrSort(SInt, f.sort))] = true
+		hn := e.hint("F_"+TypeKey(T)+"_"+sanitize(f.name), ArrSort(SInt, f.sort))
+		if f.typ != nil {
+			e.heapTypeHint[hn] = f.typ
+		}
+		out[hn] = true
 	}
 }
 
 func (e *Engine) addElem(T types.Type, out map[string]bool) {
+	e.heapTypeHint["E_"+TypeKey(T)] = T
 	out[e.hint("E_"+TypeKey(T), ArrSort(SInt, ArrSort(SInt, e.u.SortOf(T))))] = true
 }
 
@@ -86,6 +91,7 @@ func (e *Engine) addMap(mt types.Type, out map[string]bool) {
 	ks, vs := e.u.SortOf(m.Key()), e.u.SortOf(m.Elem())
 	out[e.hint("Md_"+k, ArrSort(SInt, ArrSort(ks, SBool)))] = true
 	out[e.hint("Mv_"+k, ArrSort(SInt, ArrSort(ks, vs)))] = true
+	e.heapTypeHint["Mv_"+k] = m.Elem()
 }
 
 // storeMods adds the heap names a store through addr may change. Locals are reported via cb.
